@@ -18,6 +18,22 @@ CHECKS = {
     'C04': dict(engine='E1-kani', technique='bounded model checking (Kani/CBMC, CaDiCaL, pointer checks on) of the generated enum cmp/partial_cmp against a declared-discriminant oracle',
                 text='For every enum definition in the grammar (payload types incl. niche/zero-sized, repr, explicit discriminants incl. width boundaries) CBMC decides that cmp/partial_cmp equal the declared-discriminant order for different variants and the payload order for equal variants, for all value pairs and all neighbour bytes, with memory-safety checks on.',
                 ref='DESIGN.md §4 C04'),
+    'C05': dict(engine='E1-kani', technique='bounded model checking (Kani/CBMC, CaDiCaL) of the generated hash() driven by a recording Hasher',
+                text='For every derive request in the grammar CBMC decides, for all value pairs, that equal (variant, non-ignored fields) feed identical write sequences, unequal ones feed different sequences, the tail is exactly the per-field feed in declaration order (own Hash or method), the prefix depends on the variant only and separates variants, and a == b implies equal feeds when PartialEq is educed with the same ignores.',
+                ref='DESIGN.md §4 C05'),
+    'C06': dict(engine='E1-kani', technique='bounded model checking (Kani/CBMC, CaDiCaL) of the generated fmt() against a core::fmt builder oracle, compact and alternate, with one validated std stub',
+                text='For every derive request in the grammar the bytes rendered through Formatter::new (alternate off and on, symbolic variant) equal those of an oracle written with debug_struct/debug_tuple/debug_map/write_str, and a side-channel log proves for all field values that each value went through its own formatter in order; parameter-free configs are also compared with #[derive(Debug)].',
+                ref='DESIGN.md §4 C06',
+                note=E1_NOTE + ' STUB (part of the claim): <CharSearcher as Searcher>::next_match is replaced in {:#?} harnesses by an ASCII-needle model validated natively against the real function on every run.'),
+    'C07': dict(engine='E1-kani', technique='bounded model checking (Kani/CBMC, CaDiCaL) of the generated clone/clone_from against a field-wise expected value',
+                text='For every derive request in the grammar CBMC decides that x.clone() keeps the variant and transforms each field exactly once by its own Clone or the method (bitwise under Copy without a method), and that after a.clone_from(&b) a equals the expected b.clone() for all ordered pairs incl. different variants; unions are bitwise.',
+                ref='DESIGN.md §4 C07'),
+    'C09': dict(engine='E1-kani', technique='bounded model checking (Kani/CBMC, CaDiCaL) of deref/deref_mut with pointer-identity assertions',
+                text='For every marker placement in the grammar CBMC decides that &*x has the address of the designated field (or its referent) for every variant and value, and that a write through &mut *x reaches the DerefMut-designated field and leaves every other field and the variant unchanged.',
+                ref='DESIGN.md §4 C09'),
+    'C10': dict(engine='E1-kani', technique='bounded model checking (Kani/CBMC, CaDiCaL) of every generated Into<T>::into against a per-target oracle',
+                text='For every requested target, variant and value CBMC decides that into() returns the designated field (marker, sole field or unique same-typed field) passed through its per-target method, unchanged, or through Into.',
+                ref='DESIGN.md §4 C10'),
 }
 
 NOT_APPLICABLE = {
@@ -26,7 +42,7 @@ NOT_APPLICABLE = {
     'C16': "the only varying input is std's per-process RandomState seed inside HashMap iteration; it cannot be made symbolic without executing the macro symbolically, which is unavailable here",
 }
 
-PENDING = {k: 'check not built yet at this commit (planned, see DESIGN.md §0); not claimed until it is' for k in ['C05','C06','C07','C08','C09','C10','C11','C12','C14','C15','C17','C18','C19','C20']}
+PENDING = {k: 'check not built yet at this commit (planned, see DESIGN.md §0); not claimed until it is' for k in ['C08','C11','C12','C14','C15','C17','C18','C19','C20']}
 
 
 def build():
